@@ -9,6 +9,7 @@ aggregate is read from the GENERATED tables in `Generated/FairnessSpec.lean` (li
 source on every run); this file only interprets those tables with the Frame / Aggregate model.
 -/
 import FairModel.Model.Aggregate
+import FairModel.Model.AggregateCache
 import FairModel.Model.MetricPool
 import FairModel.Generated.FairnessSpec
 
@@ -57,16 +58,36 @@ def baseOfName (s : String) : Option Metric :=
   | "mean_prediction" => some .meanpred | "count" => some .count
   | _ => none
 
-/-- the MetricFrame method call: `difference(method=...)` / `ratio(method=...)` default to
+/-- the MetricFrame method call as it was HARD-CODED before the cache was lifted (kept as the reference the lifted
+    `applyAgg` is proved equal to, `applyAgg_lifted_eq_model`): `difference(method=...)` / `ratio(method=...)` default to
     errors='coerce'; `group_min()` / `group_max()` default to errors='raise'.  `withMethod = false`
     means the method argument is not passed on (default `between_groups`). -/
-def applyAgg (k : AggKind) (meth : Method) (withMethod : Bool) (t : Tables) : Option (List (Key × XR)) :=
+def applyAggModel (k : AggKind) (meth : Method) (withMethod : Bool) (t : Tables) : Option (List (Key × XR)) :=
   let m := if withMethod then meth else Method.between
   match k with
   | .difference => difference m .coerce t
   | .ratio => ratio m .coerce t
   | .groupMin => groupMin .raise t
   | .groupMax => groupMax .raise t
+
+/-- the public accessor of `MetricFrame` a fairness function calls, WITHOUT `errors=` and with or without `method=`
+    (`Model/AggregateCache.lean` over the lifted `Generated/PopulateSrc.lean`: default arguments, cache slot, the call
+    `_populate_results` filled the slot with, and the `_extract_result` mode of `Generated/FrameSrc.lean`) -/
+def applyAggGot (k : AggKind) (meth : Method) (withMethod : Bool) (t : Tables) : AggCache.Got :=
+  let m := if withMethod then some meth else none
+  match k with
+  | .difference => AggCache.differencePub m none true t
+  | .ratio => AggCache.ratioPub m none true t
+  | .groupMin => AggCache.groupMinPub none true t
+  | .groupMax => AggCache.groupMaxPub none true t
+
+/-- the MetricFrame method call of a bare-callable frame without control features, read from the LIFTED cache:
+    the stored Series when `_extract_result` takes `.iloc[0]` of it (`extract` below does that), a raise otherwise
+    (stored exception, KeyError, rejected argument, or a result that is not a scalar) -/
+def applyAgg (k : AggKind) (meth : Method) (withMethod : Bool) (t : Tables) : Option (List (Key × XR)) :=
+  match applyAggGot k meth withMethod t with
+  | .got .entry0 r => r
+  | _ => none
 
 /-- `MetricFrame(metrics=<m>, y_true, y_pred, sensitive_features, sample_params={"sample_weight": w})`
     followed by one aggregate -/
